@@ -138,8 +138,17 @@ def check_case(case):
 
             rng = np.random.default_rng(case["order_seed"])
             order = [int(i) for i in rng.permutation(len(files))]
-            cat = ThetaHolder.concat([ThetaHolder.load_h5(files[i]) for i in order])
+            parts = [ThetaHolder.load_h5(files[i]) for i in order]
+            sizes_before = [(len(p_.thetas), int(p_.n_thetas)) for p_ in parts]
+            cat = ThetaHolder.concat(parts)
             flat = [t for i in order for t in holders[i].thetas]
+            # concatenation leaves its inputs alone: the per-chain collections can be used (and concatenated) again
+            require([(len(p_.thetas), int(p_.n_thetas)) for p_ in parts] == sizes_before, "concat.inputs_untouched", lambda: "per-chain collections changed size by being concatenated: %r -> %r" % (sizes_before, [(len(p_.thetas), int(p_.n_thetas)) for p_ in parts]))
+            cat2 = ThetaHolder.concat(list(reversed(parts)))
+            flat2 = [t for i in reversed(order) for t in holders[i].thetas]
+            require(len(cat2.thetas) == len(flat2) and all(_same_theta(a, b) is None for a, b in zip(flat2, cat2.thetas)), "concat.repeatable", lambda: "a second concatenation (reversed chain order) of the same collections holds %d samples, expected %d in chain-major order" % (len(cat2.thetas), len(flat2)))
+            for p_, i in zip(parts, order):
+                require(len(p_.thetas) == len(holders[i].thetas) and all(_same_theta(a, b) is None for a, b in zip(holders[i].thetas, p_.thetas)), "concat.inputs_untouched", "a per-chain collection changed content by being concatenated")
             require(len(cat.thetas) == len(flat) and int(cat.n_thetas) == len(flat), "concat.size", lambda: "concatenation holds %d samples (declared %r), expected %d" % (len(cat.thetas), cat.n_thetas, len(flat)))
             for k, (a, b) in enumerate(zip(flat, cat.thetas)):
                 msg = _same_theta(a, b)
